@@ -58,3 +58,13 @@ Theorem C16_gen_firewall_admits_usable_service :
                         /\ e_srv e = srv /\ cfg_vuln_e c e = true.
 Proof. exact PGen4.C16_gen_firewall_admits_usable_service. Qed.
 Print Assumptions C16_gen_firewall_admits_usable_service.
+
+(* ---- the dynamic half for generated scenarios (proofs/PGen5.v): for EVERY parameter set and EVERY
+   stream of draws the returned scenario admits a sequence of actions of the flat space that, with
+   succeeding draws, gains root on all sensitive hosts from the initial state ---- *)
+From NasimV Require Import StmtGenSolve.
+From NasimV.proofs Require Import PGen5.
+
+Theorem C16_generated : C16_generated_stmt.
+Proof. exact C16_generated_proof. Qed.
+Print Assumptions C16_generated.
